@@ -90,6 +90,7 @@ def run(eng, rep) -> None:
     rep.rule("R18.2", "copies into the frame's fixed-size arrays are bounded by the array and do not over-read a shorter source")
     rep.rule("R18.3", "unknown (id, bus): the name lookup falls through to nullopt and Decode returns nullopt on it")
     rep.rule("R18.4", "the frame's 4-character bus tag is compared after removing its zero padding")
+    rep.rule("R18.6", "a lookup key made of several variable texts keeps them apart (separator or fixed width): no two (id, bus) pairs share a key")
     rep.rule("R18.5", "static tables and run-time lookups: same population (CAN bindings) and keys (id, bus, name)")
     rep.assume("bus names have 1-4 characters (the property's quantifier): a copy of a bus name into the 4-character tag is taken as bounded; payload bytes and values are C03/C13's; frame ids fit std::uint16_t")
     hdir = eng.path(*HD.rstrip("/").split("/"))
@@ -304,8 +305,19 @@ def run(eng, rep) -> None:
         else:
             lb = w.body(ln)
             last = [s for s in lb.inner if s.kind][-1] if lb.inner else None
-            rep.check(last is not None and last.kind == "ReturnStmt" and "nullopt" in names_in(last), "R18.3", F, "%s::%s" % (cname, ln), "fall-through: return std::nullopt", "no binding matches -> no name",
-                      "the (id, bus) lookup does not fall through to nullopt: an unknown frame is attributed to some message")
+            fall = last is not None and last.kind == "ReturnStmt" and "nullopt" in names_in(last)
+            # search form: `it = find_if(...); if (it == <end>) return std::nullopt; return it->name;`
+            searched = any(st.kind == "IfStmt" and any(y.kind in ("CXXOperatorCallExpr", "BinaryOperator") for y in walk(st.inner[0])) and ({"end", "cend"} & member_calls(st.inner[0]))
+                           and any(y.kind == "ReturnStmt" and "nullopt" in names_in(y) for y in walk(st.inner[1])) for st in lb.inner if st.kind == "IfStmt") \
+                and any(y.kind == "CallExpr" and callee_name(y) in ("find_if", "find") for y in walk(lb))
+            if fall:
+                rep.ok("R18.3", F, "%s::%s" % (cname, ln), "fall-through: return std::nullopt", "no binding matches -> no name")
+            elif searched:
+                rep.ok("R18.3", F, "%s::%s" % (cname, ln), "if (it == end) return std::nullopt", "the search found nothing -> no name")
+            elif not any("nullopt" in names_in(y) for y in walk(lb) if y.kind == "ReturnStmt"):
+                rep.violation("R18.3", F, "%s::%s" % (cname, ln), "fall-through: return std::nullopt", "the (id, bus) lookup does not fall through to nullopt: an unknown frame is attributed to some message")
+            else:
+                rep.undecided("R18.3", F, "%s::%s" % (cname, ln), "return std::nullopt", "the lookup returns nullopt on some path; that it is the path on which nothing matched is not decided")
             dl = {v.get("name"): v for v in walk(dec) if v.kind == "VarDecl"}
             nv = next((nm for nm, v in dl.items() if v.inner and ln in member_calls(v.inner[-1])), None)
             tested = nv is not None and any(st.kind == "IfStmt" and nv in names_in(st.inner[0]) and "has_value" in member_calls(st.inner[0]) and any(y.kind == "ReturnStmt" and "nullopt" in names_in(y) for y in walk(st.inner[1])) for st in walk(dec))
@@ -367,18 +379,81 @@ def run(eng, rep) -> None:
                     continue
                 break
             its.add(JTemplate.src(e).replace('"', "'").replace(" ", ""))
-        rep.check(len(loops) >= 3 and its == {"fcp.get_matching_impls('can')"}, "R18.5", HD + "can_static_schema.h", "tables", "%d loops over %s" % (len(loops), sorted(its)), "every table is rendered from the CAN bindings",
+        rep.check(len(loops) >= 1 and its == {"fcp.get_matching_impls('can')"}, "R18.5", HD + "can_static_schema.h", "tables", "%d loops over %s" % (len(loops), sorted(its)), "every table is rendered from the CAN bindings",
                   "the static tables are not all rendered from fcp.get_matching_impls('can')")
         txt = srcs["can_static_schema.h"]
         keys_ok = "impl.fields.get('id')" in txt and "impl.fields.get('bus'" in txt and "impl.name" in txt
         rep.check(keys_ok, "R18.5", HD + "can_static_schema.h", "tables", "keys impl.fields['id'], impl.fields['bus'], impl.name", "the binding's id, bus and name", "a static table is not keyed by the binding's id / bus / name")
     except Exception as e:  # template not loadable: not decided
         rep.undecided("R18.5", HD + "can_static_schema.h", "tables", "Jinja loops", str(e)[:120])
+    # ---- R18.6: composite keys are injective -------------------------------------------------------
+    n_keys = 0
+    for cname, w_ in sorted(wr.items()):
+        F_ = HD + ("can_static_schema.h" if cname == "CanStaticSchema" else "can_dynamic_schema.h")
+        scopes = [(m_.get("name") or "<ctor>", m_) for m_ in w_.cls.inner if m_.kind in ("CXXMethodDecl", "CXXConstructorDecl") and any(c.kind == "CompoundStmt" for c in m_.inner)]
+        for mname_, m_ in scopes:
+            for c in walk(m_):
+                if c.kind != "CXXMemberCallExpr" or callee_name(c) not in ("find", "emplace", "at", "count", "insert", "try_emplace", "insert_or_assign", "erase"):
+                    continue
+                args = c.inner[1:]
+                if not args:
+                    continue
+                key = args[0]
+                # flatten string concatenation  a + b + c
+                def flat(x):
+                    x0 = x
+                    while x0.kind in ("ImplicitCastExpr", "MaterializeTemporaryExpr", "CXXBindTemporaryExpr", "ExprWithCleanups", "ParenExpr", "CXXConstructExpr", "CXXFunctionalCastExpr") and len([i for i in x0.inner if i.kind]) == 1:
+                        x0 = [i for i in x0.inner if i.kind][0]
+                    if x0.kind == "CXXOperatorCallExpr" and len(x0.inner) == 3 and any(y.kind == "DeclRefExpr" and y.get("referencedDecl", {}).get("name") == "operator+" for y in walk(x0.inner[0])):
+                        return flat(x0.inner[1]) + flat(x0.inner[2])
+                    return [x0]
+                parts = flat(key)
+                if len(parts) < 2:
+                    continue
+                n_keys += 1
+                def literal(p_):
+                    return any(y.kind in ("StringLiteral", "CharacterLiteral") for y in walk(p_)) and not any(y.kind in ("DeclRefExpr", "MemberExpr", "CallExpr", "CXXMemberCallExpr") for y in walk(p_))
+                adjacent = [(a_, b_) for a_, b_ in zip(parts, parts[1:]) if not literal(a_) and not literal(b_)]
+                site = "%s: key of %s(...)" % (mname_, callee_name(c))
+                if adjacent:
+                    rep.violation("R18.6", F_, "%s::%s" % (cname, mname_), site, "the lookup key is made by concatenating two variable-length texts with nothing between them: different (id, bus) pairs give the same key (id 1 on bus \"2ab\" and id 12 on bus \"ab\"), so a frame can be attributed to another binding")
+                else:
+                    rep.ok("R18.6", F_, "%s::%s" % (cname, mname_), site, "the variable parts of the key are separated by constants")
+    rep.ok("R18.6", "-", "-", "composite lookup keys in the CAN schemas", "%d found" % n_keys)
     w = wr["CanDynamicSchema"]
     for mn in sorted(set(w.methods) - {"Encode", "Decode"}):
         b = w.body(mn)
         lits = {y.get("value", "").strip('"') for y in walk(b) if y.kind == "StringLiteral"}
         if not (lits & {"id", "bus"}):
             continue
-        rep.check("can" in lits, "R18.5", HD + "can_dynamic_schema.h", "CanDynamicSchema::" + mn, "impl.protocol == \"can\" filter; keys %s" % sorted(lits & {"id", "bus"}), "only CAN bindings are consulted",
-                  "the run-time lookup consults bindings of every protocol")
+        if "can" in lits:
+            rep.ok("R18.5", HD + "can_dynamic_schema.h", "CanDynamicSchema::" + mn, "impl.protocol == \"can\" filter; keys %s" % sorted(lits & {"id", "bus"}), "only CAN bindings are consulted")
+            continue
+        # the lookup may search a member that the constructor fills with the CAN bindings only
+        def can_filtered_members():
+            out = set()
+            for c_ in w.cls.inner:
+                if c_.kind != "CXXConstructorDecl":
+                    continue
+                for ini in c_.inner:
+                    if ini.kind != "CXXCtorInitializer":
+                        continue
+                    mem = ini.get("anyInit", {}).get("name")
+                    texts = {y.get("value", "").strip('"') for y in walk(ini) if y.kind == "StringLiteral"}
+                    for y in walk(ini):
+                        nm = callee_name(y) if y.kind in ("CallExpr", "CXXMemberCallExpr") else None
+                        if nm in w.methods:
+                            texts |= {z.get("value", "").strip('"') for z in walk(w.body(nm)) if z.kind == "StringLiteral"}
+                    if mem and "can" in texts:
+                        out.add(mem)
+            return out
+        cfm = can_filtered_members()
+        used_members = {y.get("name") for y in walk(b) if y.kind == "MemberExpr"}
+        for y in walk(b):
+            nm = callee_name(y) if y.kind in ("CallExpr", "CXXMemberCallExpr") else None
+            if nm in w.methods and nm != mn:
+                used_members |= {z.get("name") for z in walk(w.body(nm)) if z.kind == "MemberExpr"}
+        if cfm & used_members:
+            rep.ok("R18.5", HD + "can_dynamic_schema.h", "CanDynamicSchema::" + mn, "searches %s, filled by the constructor with the protocol == \"can\" bindings" % sorted(cfm & used_members), "only CAN bindings are consulted")
+        else:
+            rep.violation("R18.5", HD + "can_dynamic_schema.h", "CanDynamicSchema::" + mn, "impl.protocol == \"can\" filter; keys %s" % sorted(lits & {"id", "bus"}), "the run-time lookup consults bindings of every protocol")
